@@ -83,6 +83,7 @@ def step (st : St) (j : Json) : St × List String :=
   | "again" => (st, [st.last])   -- restart: durable state is the whole model state
   | o => (st, ["bad-op:" ++ o])
 
-def main (inp out : IO.FS.Stream) : IO Unit := loop inp out step ({} : St)
-
 end Nuts.Drv.C10
+
+def main : IO Unit := do
+  Nuts.Drv.loop (← IO.getStdin) (← IO.getStdout) Nuts.Drv.C10.step ({} : Nuts.Drv.C10.St)
